@@ -472,7 +472,7 @@ SHOC_COORDS = {'face': ('y_centre', 'x_centre'), 'left': ('y_left', 'x_left'),
                'back': ('y_back', 'x_back'), 'node': ('y_grid', 'x_grid')}
 
 
-def make_shoc_standard(rng, *, nj=None, ni=None, holes=None, coord_style=None, maxn=5, map_kind=None, transpose_face_lon=False):
+def make_shoc_standard(rng, *, nj=None, ni=None, holes=None, coord_style=None, maxn=5, map_kind=None, transpose_face_lon=None):
     m = ShocStandard()
     nj = int(nj if nj is not None else rng.integers(1, maxn + 1))
     ni = int(ni if ni is not None else rng.integers(1, maxn + 1))
@@ -511,6 +511,8 @@ def make_shoc_standard(rng, *, nj=None, ni=None, holes=None, coord_style=None, m
     m.coord_names = dict(SHOC_COORDS)
     m.coord_values = {'face': (cx, cy), 'left': (lx, ly), 'back': (bx, by), 'node': (gx, gy)}
     m.encoding = dict(holes=holes, coord_style=coord_style, map=map_kind, stray_nodes=int(stray.sum()))
+    if transpose_face_lon is None:
+        transpose_face_lon = chance(rng, 0.1)
     if transpose_face_lon:
         m.encoding['transpose_face_lon'] = True
     m.derived_geometry = False
